@@ -6,7 +6,7 @@ LEVEL = "exploration"
 FLAVOUR = "plain"
 TIMEOUT = 400
 RULE = ("cell = kind x page version x has_nulls; inside: value-order program (ascending, descending, min in the "
-        "middle, max first, all equal, single non-null) x null pattern x row-group split (None and every [0,k]) x "
+        "middle, max first, all equal, single non-null, overlapping row-group ranges, touching ranges) x null pattern x row-group split (None and every [0,k]) x "
         "stats (True, 'auto', [col], False) x page size (default, tiny); observed at three points: raw Statistics "
         "bytes decoded by specpq, ParquetFile.statistics, sorted_partitioned_columns; oracle = pure-Python min/max "
         "of the non-null values of each chunk under the type's ordering; non-trivial = a chunk with >= 1 non-null "
@@ -14,7 +14,7 @@ RULE = ("cell = kind x page version x has_nulls; inside: value-order program (as
 ASSUMPTIONS = ["min/max absent is always accepted; present on an all-null chunk or min > max never is",
                "floats: NaN is excluded from the order, -0.0 == 0.0", "text ordered by UTF-8 bytes (= code points)"]
 
-PROGRAMS = ["asc", "desc", "min_mid", "max_first", "equal", "single"]
+PROGRAMS = ["asc", "desc", "min_mid", "max_first", "equal", "single", "overlap", "touch"]
 
 
 def points(tier):
@@ -58,6 +58,12 @@ def arrange(vals, prog):
         return [vals[-1]] + vals[:-1]
     if prog == "equal":
         return [vals[n // 2]] * n
+    if prog == "overlap":
+        # bounds of consecutive row groups trend upwards but the ranges overlap
+        return [vals[0], vals[3 % n], vals[1], vals[4 % n], vals[2], vals[5 % n]][:n] + list(vals[6:])
+    if prog == "touch":
+        # the max of one row group equals the min of the next
+        return [vals[0], vals[2], vals[2], vals[4 % n], vals[4 % n], vals[5 % n]][:n] + list(vals[6:])
     raise KeyError(prog)
 
 
